@@ -20,6 +20,7 @@ def splitOnTok (sep : String) (ts : List String) : List (List String) :=
 def parseAct (ts : List String) : Option Act :=
   match ts with
   | ["E", tgt, kind, d, dm, hk] => some (.emit (natD tgt) (natD kind) (natD d) (natD dm != 0) (natD hk))
+  | ["EP", tgt, kind, b, dm] => some (.emitPast (natD tgt) (natD kind) (natD b) (natD dm != 0))
   | ["X", k] => some (.cancel (natD k))
   | ["R", f, v] => some (.resolve (natD f) (natD v))
   | "A" :: f :: gs => some (.anyOf (natD f) (nats gs))
